@@ -167,3 +167,14 @@ func sortedKeys[V any](m map[string]V) []string {
 	sort.Strings(ks)
 	return ks
 }
+
+func (l *Loaded) namedType(pkgPath, name string) types.Type {
+	for _, p := range l.prog.AllPackages() {
+		if p.Pkg.Path() == pkgPath {
+			if o := p.Pkg.Scope().Lookup(name); o != nil {
+				return o.Type()
+			}
+		}
+	}
+	return nil
+}
